@@ -1,5 +1,202 @@
-import Lumina.Model.NsData
-import Lumina.Spec.C06
+/-
+  C06 — Namespace data is sound and complete.   PROPERTY THEOREMS ONLY.
+
+  Model: `Lumina/Model/NsData.lean` (`rowVerify` = `RowNamespaceData::verify`, `verify` = `NamespaceData::verify`,
+  `getNamespaceData` = `ExtendedDataSquare::get_namespace_data`) over the nmt-rs model (`verify_complete_namespace`
+  with presence and absence proofs, completeness check, `compute_tree_size`, lumina's `validate_shape` wrapper).
+  Spec: `Lumina/Spec/C06.lean` (brute-force scan of the square; model-free).
+  Soundness is proved at full strength under the idealised hash (`HashOK`) and in "sound or explicit collision" form.
+  Completeness is PARTIAL (see `FullCompleteness` below).
+-/
+import Lumina.Proofs.NsData
+import Lumina.Props.C04
+import Lumina.Gen.C06
+
 namespace Lumina.Props.C06
-theorem placeholder : True := trivial
+open Lumina.Util Lumina.Model.Nmt Lumina.Model.Eds Lumina.Model.NsData
+open Lumina.Proofs.Nmt Lumina.Proofs.NmtRange Lumina.Proofs.Eds Lumina.Proofs.Sample Lumina.Proofs.NsData
+open Lumina.Spec.C06 (specVerify specRow specHonest expected rowCovers rowShares)
+
+/-- the sizes the model uses are the ones in the current source tree -/
+theorem consts_eq :
+    Lumina.Gen.C06.NS_SIZE = 29 ∧ Lumina.Gen.C06.NS_SIZE = Lumina.Model.Nmt.NS_SIZE ∧
+    Lumina.Gen.C06.HASH_SIZE = Lumina.Model.Nmt.HASH_LEN ∧ Lumina.Gen.C06.SHARE_SIZE = Lumina.Model.Eds.SHARE_SIZE := by
+  decide
+
+/-- **Soundness of `NamespaceData::verify`** — every square (any width), its DAH, every 29-byte namespace, every list of
+    rows with any proofs (presence or absence, any range, any siblings, any flags): accepted ⇒ the rows are, in row
+    order, exactly the rows whose root range covers the namespace, each holding exactly the namespace's shares of that
+    row (no shares where the row has none).  Hypotheses: idealised hash; quadrant parity flags and share sizes
+    (`SquareShape`, established by `ExtendedDataSquare::new`); sizes guaranteed by the Rust types (`ProofOK`). -/
+theorem nsdata_sound {H : HashFn} (hk : HashOK H) {e : Eds} (hsq : SquareShape e) {dah : Dah}
+    (hd : Dah.ofEds H e = .ok dah) {ns : Bytes} (hns : ns.length = NS_SIZE)
+    (rows : List RowNsData) (hp : ∀ d ∈ rows, ProofOK d.proof) :
+    specVerify e.width (rawSquare e) ns (rows.map (fun d => d.shares.map Share.data))
+      (accepted (verify H rows ns dah)) = true := by
+  cases hv : verify H rows ns dah with
+  | error er => simp [accepted, specVerify]
+  | ok u =>
+    have := verify_sound_model hk hd hsq.size hns hp hv
+    simp [accepted, specVerify, this, expected_eq hk hsq hd hns]
+
+/-- soundness in reduction form (satisfiable by real hashes): sound, or the hash has an explicit collision -/
+theorem nsdata_sound_or_collision {H : HashFn} (hl : HashLen H) {e : Eds} (hsq : SquareShape e) {dah : Dah}
+    (hd : Dah.ofEds H e = .ok dah) {ns : Bytes} (hns : ns.length = NS_SIZE)
+    (rows : List RowNsData) (hp : ∀ d ∈ rows, ProofOK d.proof) :
+    specVerify e.width (rawSquare e) ns (rows.map (fun d => d.shares.map Share.data))
+      (accepted (verify H rows ns dah)) = true ∨ ∃ x y, x ≠ y ∧ H x = H y := by
+  by_cases hinj : Function.Injective H
+  · exact Or.inl (nsdata_sound ⟨hinj, hl⟩ hsq hd hns rows hp)
+  · right
+    unfold Function.Injective at hinj
+    have : ∃ x y, H x = H y ∧ x ≠ y := by
+      apply Classical.byContradiction
+      intro hn
+      apply hinj
+      intro a b hab
+      apply Classical.byContradiction
+      intro hne
+      exact hn ⟨a, b, hab, hne⟩
+    obtain ⟨x, y, h1, h2⟩ := this
+    exact ⟨x, y, h2, h1⟩
+
+/-- **Soundness of a single `RowNamespaceData::verify`**: accepted ⇒ the row exists and, if its root range covers the
+    namespace, the shares are exactly the namespace's shares of that row; otherwise no shares are accepted. -/
+theorem row_nsdata_sound {H : HashFn} (hk : HashOK H) {e : Eds} (hsq : SquareShape e) {dah : Dah}
+    (hd : Dah.ofEds H e = .ok dah) {ns : Bytes} (hns : ns.length = NS_SIZE) (d : RowNsData) (hp : ProofOK d.proof)
+    (row : Nat) :
+    specRow e.width (rawSquare e) ns row (d.shares.map Share.data) (accepted (rowVerify H d ns row dah)) = true := by
+  cases hv : rowVerify H d ns row dah with
+  | error er => simp [accepted, specRow]
+  | ok u =>
+    obtain ⟨hrl, _, _, _⟩ := dah_ofEds_roots hd
+    -- the row root exists
+    have hrow : row < e.width := by
+      unfold rowVerify at hv
+      split at hv
+      · cases hv
+      · cases hg : dah.rowRoot? row with
+        | none => simp [hg] at hv
+        | some r =>
+          unfold Dah.rowRoot? at hg
+          have := (List.getElem?_eq_some_iff.mp hg).1; omega
+    obtain ⟨shares, root, hax, hroot?, _⟩ := row_facts hd hsq.size hrow
+    have hcov := rowCovers_eq hk hsq hd hrow hns
+    have hrc : dah.rowContains? H row ns = some (root.contains H ns) := by
+      unfold Dah.rowContains?; rw [hroot?]; rfl
+    by_cases hc : root.contains H ns = true
+    · obtain ⟨shares', hax', hdat⟩ := rowVerify_sound hk hd hsq.size hns hp (by rw [hrc, hc]) hv
+      rw [hax] at hax'
+      injection hax' with hax'
+      subst hax'
+      have hcov' : rowCovers e.width (rawSquare e) row ns = true := by rw [hcov, hrc, hc]; rfl
+      simp only [accepted, specRow, hrow, decide_true, hcov', ↓reduceIte, Bool.not_true, Bool.false_or, Bool.true_and,
+        rowShares_eq hsq hrow hax, hdat, List.filter_map, List.map_map]
+      simp [Function.comp_def]
+    · have hc' : root.contains H ns = false := by simpa using hc
+      have hcov' : rowCovers e.width (rawSquare e) row ns = false := by rw [hcov, hrc, hc']; rfl
+      -- only an absence proof with no shares can be accepted
+      have hempty : d.shares = [] := by
+        unfold rowVerify at hv
+        split at hv
+        · cases hv
+        · rename_i hw
+          simp only [hroot?] at hv
+          cases hl : luminaVerifyCompleteNamespace H d.proof root (d.shares.map Share.data) ns with
+          | error er => simp [hl] at hv
+          | ok u' =>
+            have hvc := luminaVCN_ok hl
+            by_cases hab : d.proof.isAbsence = true
+            · cases hs : d.shares with
+              | nil => rfl
+              | cons a b => simp [hs, hab] at hw
+            · exfalso
+              have hab' : d.proof.isAbsence = false := by simpa using hab
+              unfold verifyCompleteNamespace at hvc
+              split at hvc
+              · cases hvc
+              · unfold verifyNamespace at hvc
+                have hne : d.shares ≠ [] := by
+                  intro hs; simp [hs, hab'] at hw
+                have hne' : (d.shares.map Share.data).isEmpty = false := by
+                  cases hs : d.shares with
+                  | nil => exact absurd hs hne
+                  | cons a b => rfl
+                simp [hne', hab', hc'] at hvc
+      simp [accepted, specRow, hrow, hcov', hempty]
+
+/-- The full completeness statement of the property (NOT proved in full; see `nsdata_complete_partial`). -/
+def FullCompleteness : Prop :=
+  ∀ (H : HashFn) (e : Eds) (dah : Dah) (ns : Bytes), HashLen H → SquareShape e → Dah.ofEds H e = .ok dah →
+    ns.length = NS_SIZE →
+    ∃ rows, getNamespaceData H e ns dah = .ok rows ∧
+      specHonest e.width (rawSquare e) ns (rows.map (fun p => (p.1, p.2.shares.map Share.data)))
+        (accepted (verify H (rows.map Prod.snd) ns dah)) = true
+
+/-- **Completeness, proved part**: whatever `get_namespace_data` returns equals the brute-force scan of the square
+    (the rows whose root range covers the namespace, in order, with exactly the namespace's shares).
+    MISSING for `FullCompleteness`: (i) `get_namespace_data` never fails on a valid square and (ii) `NamespaceData::verify`
+    accepts its output.  Both need completeness of MULTI-leaf range proofs (`build_range_proof` ⇒ `check_range_proof`), which
+    is proved here only for single-leaf ranges (`range_single_complete`); both are exercised on every run by the
+    correspondence (`get` ops: real `get_namespace_data` + `verify`, compared with the model and checked by `specHonest`). -/
+theorem nsdata_complete_partial {H : HashFn} (hk : HashOK H) {e : Eds} (hsq : SquareShape e) {dah : Dah}
+    (hd : Dah.ofEds H e = .ok dah) {ns : Bytes} (hns : ns.length = NS_SIZE)
+    {rows : List (Nat × RowNsData)} (hget : getNamespaceData H e ns dah = .ok rows) :
+    rows.map (fun p => (p.1, p.2.shares.map Share.data)) = expected e.width (rawSquare e) ns := by
+  unfold getNamespaceData at hget
+  rw [getNamespaceDataAux_data _ rows hget, expected_eq' hk hsq hd hns]
+
+/-- the proved completeness part in reduction form (satisfiable by real hashes) -/
+theorem nsdata_complete_partial_or_collision {H : HashFn} (hl : HashLen H) {e : Eds} (hsq : SquareShape e) {dah : Dah}
+    (hd : Dah.ofEds H e = .ok dah) {ns : Bytes} (hns : ns.length = NS_SIZE)
+    {rows : List (Nat × RowNsData)} (hget : getNamespaceData H e ns dah = .ok rows) :
+    rows.map (fun p => (p.1, p.2.shares.map Share.data)) = expected e.width (rawSquare e) ns ∨
+      ∃ x y, x ≠ y ∧ H x = H y := by
+  by_cases hinj : Function.Injective H
+  · exact Or.inl (nsdata_complete_partial ⟨hinj, hl⟩ hsq hd hns hget)
+  · right
+    unfold Function.Injective at hinj
+    have : ∃ x y, H x = H y ∧ x ≠ y := by
+      apply Classical.byContradiction
+      intro hn
+      apply hinj
+      intro a b hab
+      apply Classical.byContradiction
+      intro hne
+      exact hn ⟨a, b, hab, hne⟩
+    obtain ⟨x, y, h1, h2⟩ := this
+    exact ⟨x, y, h2, h1⟩
+
+/-! ### Non-vacuity (concrete 2×2 square of 512-byte shares, toy 32-byte hash from `Props/C04`) -/
+
+open Lumina.Props.C04 (toyH32 okEds okDah nonvacuity_okEds_valid nonvacuity_toyH32_len)
+
+def ns0 : Bytes := List.replicate 29 0
+def okRows : List (Nat × RowNsData) :=
+  match getNamespaceData toyH32 okEds ns0 okDah with
+  | .ok r => r
+  | .error _ => []
+
+/-- the hypotheses other than `HashOK` hold of a concrete square, and its own namespace data is produced and accepted -/
+theorem nonvacuity_okEds_shape : SquareShape okEds :=
+  ⟨nonvacuity_okEds_valid.flags, fun sh hm => by rw [nonvacuity_okEds_valid.size sh hm]; decide⟩
+
+set_option maxRecDepth 40000 in
+example : HashLen toyH32 ∧ Dah.ofEds toyH32 okEds = .ok okDah ∧ ns0.length = NS_SIZE ∧ okRows.length = 1 ∧
+    (∀ d ∈ okRows.map Prod.snd, ProofOK d.proof) ∧
+    accepted (verify toyH32 (okRows.map Prod.snd) ns0 okDah) = true := by
+  refine ⟨nonvacuity_toyH32_len, rfl, rfl, by decide, ?_, by decide⟩
+  have h : (okRows.map Prod.snd).all (fun d =>
+      d.proof.siblings.all (fun x => decide x.WF) &&
+      (match d.proof.leaf with | some l => decide l.WF | none => true) &&
+      decide (d.proof.start ≤ U32_MAX) && decide (d.proof.end_ ≤ U32_MAX)) = true := by decide
+  intro d hd
+  have := List.all_eq_true.mp h d hd
+  simp only [Bool.and_eq_true, List.all_eq_true, decide_eq_true_eq] at this
+  obtain ⟨⟨⟨h1, h2⟩, h3⟩, h4⟩ := this
+  refine ⟨h1, ?_, h3, h4⟩
+  intro l hl
+  rw [hl] at h2
+  simpa using h2
+
 end Lumina.Props.C06
